@@ -45,14 +45,18 @@ Theorem C02_divisor_is_max :
 Proof. exact divisor_is_max_full. Qed.
 Print Assumptions C02_divisor_is_max.
 
-(* the documented factor: (u_exact / max(tf_l, tf_r, minimum_u))^weight, for every POW *)
+(* the documented factor: (u_exact / max(tf_l, tf_r, minimum_u))^weight, for every POW.  The two cases in which
+   the formula is meaningless are excluded explicitly: no level supplies u_exact (the real code raises ValueError
+   while generating the SQL; `tf_generable` is the corresponding executable guard) and a zero divisor. *)
 Theorem C02_tf_factor_formula :
-  forall pow tfs ls l cvv k tfl tfr l' r',
+  forall pow tfs ls l cvv k tfl tfr l' r' u,
     tf_active l cvv = true -> tf_col l = Some k -> tfs k = (tfl, tfr) ->
     coalesce2 tfl tfr = Some l' -> coalesce2 tfr tfl = Some r' ->
     0 <= l' -> 0 <= r' -> 0 <= tf_min_u l ->
-    exists d, d == Qmax (Qmax l' r') (tf_min_u l) /\
-              tf_adj pow tfs ls l cvv = pow (u_exact_or ls l / d) (tf_w l).
+    0 < Qmax (Qmax l' r') (tf_min_u l) ->
+    u_exact ls l = Some u ->
+    exists d, d == Qmax (Qmax l' r') (tf_min_u l) /\ 0 < d /\
+              tf_adj pow tfs ls l cvv = pow (u / d) (tf_w l).
 Proof. exact tf_adj_formula. Qed.
 Print Assumptions C02_tf_factor_formula.
 
@@ -79,10 +83,11 @@ Theorem C02_tf_factor_formula_supplier :
     tf_active l cvv = true -> tf_col l = Some k -> tfs k = (tfl, tfr) ->
     coalesce2 tfl tfr = Some l' -> coalesce2 tfr tfl = Some r' ->
     0 <= l' -> 0 <= r' -> 0 <= tf_min_u l ->
+    0 < Qmax (Qmax l' r') (tf_min_u l) ->
     disable_exact_detect l = false ->
     nth_error ls i = Some s -> exact_cols s = [k] ->
     (forall j y, (j < i)%nat -> nth_error ls j = Some y -> exact_cols y <> [k]) ->
-    exists d, d == Qmax (Qmax l' r') (tf_min_u l) /\
+    exists d, d == Qmax (Qmax l' r') (tf_min_u l) /\ 0 < d /\
               tf_adj pow tfs ls l cvv = pow (lu s / d) (tf_w l).
 Proof. exact tf_adj_formula_supplier. Qed.
 Print Assumptions C02_tf_factor_formula_supplier.
@@ -200,9 +205,14 @@ Theorem C02_weight_threshold_R :
 Proof. exact keep_is_weight_test. Qed.
 Print Assumptions C02_weight_threshold_R.
 
+(* the chart records (waterfall_records: prior bar, then per comparison the Bayes-factor bar and the TF bar) add
+   up: when all bars are finite and positive, the sum of their log2 is log2 of the final bar, which is the score
+   (match weight).  Bars with an infinite factor (u = 0) are outside this statement (checked by X only). *)
 Theorem C02_waterfall_adds_up :
-  forall l : list R, Forall (fun x => 0 < x) l -> sum_log2 l = log2R (prodR l).
-Proof. exact waterfall_adds_up. Qed.
+  forall p cs qs,
+    fin_vals (waterfall_records p cs) = Some qs -> Forall (fun q => (0 < q)%Q) qs ->
+    exists s, waterfall_final p cs = Fin s /\ (0 < s)%Q /\ sum_log2 (map Q2R qs) = log2R (Q2R s).
+Proof. exact waterfall_sums_to_score. Qed.
 Print Assumptions C02_waterfall_adds_up.
 
 (* ---- non-vacuity ------------------------------------------------------------------------ *)
@@ -263,3 +273,31 @@ Example C02_example_final_ok :
                  f_where := Some (gen_bf_expr (1 # 2) cols, op, 2) |} in
   final_ok (1 # 2) [ex_ls] (Some 2) (f OpGe) = true /\ final_ok (1 # 2) [ex_ls] (Some 2) (f OpGt) = false.
 Proof. vm_compute. auto. Qed.
+
+(* non-vacuity of C02_generated_sql_computes_score: the environment built stage by stage like the CTE pipeline
+   (tf columns -> gamma column -> bf / bf_tf_adj columns) satisfies its five hypotheses, and the theorem then
+   gives the score 1/12 of C02_example_score *)
+Definition ex_oc : nat -> tv := fun i => match i with 2%nat => T | _ => F end.
+Definition ex_env0 : colref -> option xq :=
+  fun c => match c with CTfL k => option_map Fin (fst (ex_tfs k)) | CTfR k => option_map Fin (snd (ex_tfs k)) | _ => None end.
+Definition ex_env1 : colref -> option xq :=
+  fun c => match c with CGamma 0 => neval ex_pow ex_env0 ex_oc (gen_gamma_case ex_ls (assign_cvv ex_ls)) | _ => ex_env0 c end.
+Definition ex_env2 : colref -> option xq :=
+  fun c => match c with
+           | CBf 0 => neval ex_pow ex_env1 noconds (gen_bf_case 0 ex_ls)
+           | CTfAdj 0 => neval ex_pow ex_env1 noconds (gen_tf_case 0 ex_ls)
+           | _ => ex_env1 c end.
+Example C02_example_staged_env :
+  exists cs, eval_all ex_pow ex_tfs [ex_ls] [ex_oc] = Some cs /\
+    neval ex_pow ex_env2 noconds (gen_bf_expr (1 # 2) (term_cols [ex_ls])) = Some (score_of_cols (1 # 2) cs) /\
+    match score_of_cols (1 # 2) cs with Fin q => Qeq_bool q (1 # 12) | Inf => false end = true.
+Proof.
+  destruct (eval_all ex_pow ex_tfs [ex_ls] [ex_oc]) as [cs|] eqn:E; [|vm_compute in E; discriminate].
+  exists cs. split; [reflexivity|]. split.
+  - apply (C02_generated_sql_computes_score ex_pow ex_tfs ex_env2 (1 # 2) [ex_ls] [ex_oc] cs); auto.
+    + intros i ls oc H1 H2. destruct i as [|[|i]]; cbn in H1, H2; try discriminate.
+      injection H1 as <-. injection H2 as <-. vm_compute. reflexivity.
+    + intros i ls H1. destruct i as [|[|i]]; cbn in H1; try discriminate. injection H1 as <-. vm_compute. reflexivity.
+    + intros i ls H1 _. destruct i as [|[|i]]; cbn in H1; try discriminate. injection H1 as <-. vm_compute. reflexivity.
+  - vm_compute in E. injection E as <-. vm_compute. reflexivity.
+Qed.
